@@ -41,7 +41,7 @@ def specs(ctx, n):
     names = gen.FAST if ctx.quick else gen.ALL
     out = []
     for i in range(n):
-        name = names[i % len(names)]
+        name = gen.rotate(names, i, ctx.quick)
         space, meta = gen.gen_space(rng, sizes=(2, 3, 5, 8), max_points=200)
         table, _ = gen.gen_table(rng, space)
         n_iter = rng.choice([1, 2, 3, 5, 8, 12])
@@ -121,7 +121,7 @@ def aborted_then_timed(ctx, n):
     rng = ctx.sub_rng("aborted")
     names = [nm for nm in gen.FAST]
     for i in range(n):
-        name = names[i % len(names)]
+        name = gen.rotate(names, i, ctx.quick)
         space, meta = gen.gen_space(rng, sizes=(3, 5, 8), max_points=200)
         table, _ = gen.gen_table(rng, space)
         n_iter = rng.choice([4, 6, 9])
